@@ -34,6 +34,7 @@ import Bmc.Proofs.GenDec.GetDCMISensorInfoRsp
 import Bmc.Proofs.GenDec.FullSensorRecord
 import Bmc.Proofs.GenDec.V2Session
 import Bmc.Proofs.GenDec.AES128CBC
+import Bmc.Proofs.GenOrch.TranslatedOk
 import Bmc.Proofs.GenOrch.WalkSDRs
 import Bmc.Proofs.GenOrch.RetrieveSDRRepository
 import Bmc.Proofs.ApiWrappers
@@ -97,6 +98,8 @@ import Bmc.Proofs.ApiWrappers
 #print axioms Bmc.Proofs.GenDec.FullSensorRecord_gen_eq
 #print axioms Bmc.Proofs.GenDec.V2Session_gen_eq
 #print axioms Bmc.Proofs.GenDec.AES128CBC_gen_eq
+#print axioms Bmc.Proofs.GenOrch.translated_ok
+#print axioms Bmc.Proofs.GenOrch.gaveUp_none
 #print axioms Bmc.Proofs.GenOrch.walkSDRs_gen_eq
 #print axioms Bmc.Proofs.GenOrch.RetrieveSDRRepository_gen_eq
 #print axioms Bmc.Proofs.ApiWrappers.api_wrappers
